@@ -138,6 +138,11 @@ def _evaluate(e, env, bits=64):
             return float(a)
         if to in CAST_MASK:
             if isinstance(a, float):
+                # Rust `as`: float -> integer saturates, NaN -> 0
+                if a != a:
+                    return 0
+                if to.startswith("u"):
+                    return 0 if a <= 0 else (CAST_MASK[to] if a >= CAST_MASK[to] else int(a))
                 return int(a)
             return a & CAST_MASK[to]
         raise Uneval("cast " + to)
@@ -280,7 +285,27 @@ def _evaluate(e, env, bits=64):
             except Uneval:
                 base_ = None
             if isinstance(base_, list):
-                i_ = evaluate(e[2][1], env, bits)
+                rng_ = e[2][1]
+                if rng_[0] == "agg" and "Range" in rng_[1]:
+                    # slicing by a..b / ..b / a.. / ..
+                    parts = [evaluate(x, env, bits) for x in rng_[2]]
+                    kind_ = rng_[1]
+                    if "RangeFull" in kind_:
+                        lo_, hi_ = 0, len(base_)
+                    elif "RangeFrom" in kind_:
+                        lo_, hi_ = parts[0], len(base_)
+                    elif "RangeToInclusive" in kind_:
+                        lo_, hi_ = 0, parts[0] + 1
+                    elif "RangeTo" in kind_:
+                        lo_, hi_ = 0, parts[0]
+                    elif "RangeInclusive" in kind_:
+                        lo_, hi_ = parts[0], parts[1] + 1
+                    else:
+                        lo_, hi_ = parts[0], parts[1]
+                    if not (0 <= lo_ <= hi_ <= len(base_)):
+                        raise Uneval("slice out of range")
+                    return base_[lo_:hi_]
+                i_ = evaluate(rng_, env, bits)
                 if isinstance(i_, int) and 0 <= i_ < len(base_):
                     return base_[i_]
                 raise Uneval("index out of range")
@@ -334,6 +359,22 @@ def _evaluate(e, env, bits=64):
             return 2.0 ** float(args[0])
         if name == "saturating_sub":
             return max(args[0] - args[1], 0)
+        if name == "next_power_of_two" and len(args) == 1 and isinstance(args[0], int):
+            return 1 if args[0] <= 1 else 1 << (args[0] - 1).bit_length()
+        if name == "is_power_of_two" and len(args) == 1 and isinstance(args[0], int):
+            return int(args[0] > 0 and args[0] & (args[0] - 1) == 0)
+        if name == "count_ones" and len(args) == 1 and isinstance(args[0], int):
+            return bin(args[0] & M64).count("1")
+        if name == "ilog2" and len(args) == 1 and isinstance(args[0], int) and args[0] > 0:
+            return args[0].bit_length() - 1
+        if name == "abs" and len(args) == 1:
+            return abs(args[0])
+        if name in ("trunc",) and len(args) == 1:
+            return float(int(args[0]))
+        if name == "mul_add" and len(args) == 3:
+            return args[0] * args[1] + args[2]
+        if name == "checked_add" and len(args) == 2 and all(isinstance(a, int) for a in args):
+            return ("$variant", "Some", args[0] + args[1]) if args[0] + args[1] <= M64 else ("$variant", "None")
         raise Uneval("call " + name)
     raise Uneval(key or k)
 
